@@ -1042,8 +1042,9 @@ class VBSClusteringManager:
                 0.0,
                 vam_constants.TIME_CLUSTER_JOIN_NOTIFICATION - elapsed,
             )
-            # joinTime is DeltaTimeQuarterSecond (0..127, units 0.25 s)
-            join_time = min(127, int(remaining_s / 0.25))
+            # joinTime is DeltaTimeQuarterSecond (1..255, units 0.25 s); 0 cannot
+            # be encoded, so the last quarter second is reported as 1.
+            join_time = max(1, min(127, int(remaining_s / 0.25)))
             return {
                 "clusterJoinInfo": {
                     "clusterId": self._join_target_cluster_id or 0,
@@ -1097,7 +1098,8 @@ class VBSClusteringManager:
                 0.0,
                 vam_constants.TIME_CLUSTER_BREAKUP_WARNING - elapsed,
             )
-            breakup_time = min(127, int(remaining_s / 0.25))
+            # DeltaTimeQuarterSecond (1..255): 0 cannot be encoded.
+            breakup_time = max(1, min(127, int(remaining_s / 0.25)))
             return {
                 "clusterBreakupInfo": {
                     "clusterBreakupReason": (
